@@ -71,6 +71,14 @@ pub enum Act {
     SetExtensions(S),
     /// loc.extensions.unicode = Default (assigning a public field)
     ResetUnicode,
+    /// loc.clone_from(&parse(text)) -- `Clone::clone_from` is a public mutation of the receiver
+    CloneFrom(S),
+    /// loc.id.clone_from(&parse(text))
+    CloneIdFrom(S),
+    /// loc.extensions.clone_from(&parse(text))
+    CloneExtFrom(S),
+    /// loc = std::mem::take(&mut loc) (Default + move), then back: the identity
+    TakeAndRestore,
 }
 
 fn esc(s: &str) -> String {
@@ -109,6 +117,10 @@ impl std::fmt::Display for Act {
             Act::SetId(s) => write!(f, "id=parse({})", esc(s)),
             Act::SetExtensions(s) => write!(f, "extensions=parse({})", esc(s)),
             Act::ResetUnicode => write!(f, "extensions.unicode=default"),
+            Act::CloneFrom(s) => write!(f, "clone_from(parse({}))", esc(s)),
+            Act::CloneIdFrom(s) => write!(f, "id.clone_from(parse({}))", esc(s)),
+            Act::CloneExtFrom(s) => write!(f, "extensions.clone_from(parse({}))", esc(s)),
+            Act::TakeAndRestore => write!(f, "take_and_restore()"),
         }
     }
 }
@@ -143,6 +155,10 @@ impl Act {
             Act::SetId(_) => "id=",
             Act::SetExtensions(_) => "extensions=",
             Act::ResetUnicode => "unicode=default",
+            Act::CloneFrom(_) => "clone_from",
+            Act::CloneIdFrom(_) => "id.clone_from",
+            Act::CloneExtFrom(_) => "extensions.clone_from",
+            Act::TakeAndRestore => "take_and_restore",
         }
     }
 }
@@ -494,6 +510,26 @@ impl Harness {
                 m.keywords.clear();
                 Ret::Unit
             }
+            Act::CloneFrom(s) => {
+                let tokens = rm::split_tokens(s.as_bytes());
+                *m = rm::run_locale(&tokens, rm::Mode::StrictBareTkey).expect("menu locale must be well-formed").value;
+                Ret::Unit
+            }
+            Act::CloneIdFrom(s) => {
+                m.id = model_langid(s);
+                Ret::Unit
+            }
+            Act::CloneExtFrom(s) => {
+                let body = s.trim_start_matches('-');
+                let txt = if body.is_empty() { "und".to_string() } else { format!("und-{}", body) };
+                let tokens = rm::split_tokens(txt.as_bytes());
+                let a = rm::run_locale(&tokens, rm::Mode::StrictBareTkey).expect("menu extension string must be well-formed");
+                let id = m.id.clone();
+                *m = a.value;
+                m.id = id;
+                Ret::Unit
+            }
+            Act::TakeAndRestore => Ret::Unit,
         }
     }
 }
@@ -593,6 +629,30 @@ fn apply_imp(imp: &mut Locale, a: &Act) -> Ret {
             imp.extensions.unicode = Default::default();
             Ret::Unit
         }
+        Act::CloneFrom(s) => {
+            let src = Locale::from_str(s).expect("menu locale");
+            imp.clone_from(&src);
+            Ret::Unit
+        }
+        Act::CloneIdFrom(s) => {
+            let src = LanguageIdentifier::from_str(s).expect("menu id");
+            imp.id.clone_from(&src);
+            Ret::Unit
+        }
+        Act::CloneExtFrom(s) => {
+            let src = ExtensionsMap::from_str(s).expect("menu extensions");
+            imp.extensions.clone_from(&src);
+            Ret::Unit
+        }
+        Act::TakeAndRestore => {
+            let taken = std::mem::take(imp);
+            if *imp != Locale::default() {
+                // (reported through the getters of the next state: leave the non-default rest in place)
+                return Ret::Err;
+            }
+            *imp = taken;
+            Ret::Unit
+        }
     }
 }
 
@@ -650,6 +710,39 @@ impl Harness {
         for (n, got, want) in empties {
             if got != want {
                 fault(f, "c10.is_empty", format!("{} differs from the model", n), want.to_string(), got.to_string());
+            }
+        }
+        // ---- C10: the iterator getters answer len / size_hint / count / last / nth / fold / skip /
+        // step_by like the model's sequence (not only a next() walk)
+        {
+            let own = |s: &str| s.to_string();
+            let mut laws: Vec<(String, Option<String>)> = vec![];
+            laws.push(("variants()".into(), iter_laws(|| imp.id.variants(), |v: &Variant| v.as_str().to_string(), &e.id.variants)));
+            laws.push(("attributes()".into(), iter_laws(|| u.attributes(), own, &e.attrs)));
+            let kk: Vec<String> = e.keywords.iter().map(|x| x.0.clone()).collect();
+            laws.push(("keyword_keys()".into(), iter_laws(|| u.keyword_keys(), own, &kk)));
+            for (k, vals) in &e.keywords {
+                if u.keyword(k).is_ok() {
+                    laws.push((format!("keyword({})", k), iter_laws(|| u.keyword(k).ok().unwrap(), own, vals)));
+                }
+            }
+            let tk: Vec<String> = e.tfields.iter().map(|x| x.0.clone()).collect();
+            laws.push(("tfield_keys()".into(), iter_laws(|| t.tfield_keys(), own, &tk)));
+            for (k, vals) in &e.tfields {
+                if t.tfield(k).is_ok() {
+                    laws.push((format!("tfield({})", k), iter_laws(|| t.tfield(k).ok().unwrap(), own, vals)));
+                }
+            }
+            laws.push(("tags()".into(), iter_laws(|| p.tags(), own, &e.tags)));
+            if let Some(tl) = t.tlang() {
+                if let Some(etl) = &e.tlang {
+                    laws.push(("tlang().variants()".into(), iter_laws(|| tl.variants(), |v: &Variant| v.as_str().to_string(), &etl.variants)));
+                }
+            }
+            for (name, r) in laws {
+                if let Some(why) = r {
+                    fault(f, "c10.iter", format!("iterator getter {} disagrees with the model's sequence", name.split('(').next().unwrap_or("")), format!("{}: the model's sequence", name), why);
+                }
             }
         }
         for v in &self.probes.variants {
@@ -1298,6 +1391,12 @@ fn id_menu(thorough: bool) -> Vec<Act> {
     m.push(Act::SetVariants(vec!["zaaaa", "aaaaz"]));
     m.push(Act::SetVariants(vec!["aaaaz", "bbbbbb", "zaaaa", "9aaa", "1zzz"]));
     m.push(Act::ClearVariants);
+    // Clone::clone_from and mem::take are public mutations too (sources made of menu values)
+    // (every source is a value of this menu or an initial state: no new states, new transitions)
+    m.push(Act::CloneIdFrom("zh-Hant-TW-1996-valencia"));
+    m.push(Act::CloneIdFrom("und"));
+    m.push(Act::CloneFrom(INIT_FULL));
+    m.push(Act::TakeAndRestore);
     #[cfg(feature = "likelysubtags")]
     {
         m.push(Act::Maximize);
@@ -1330,6 +1429,12 @@ fn u_menu(thorough: bool) -> Vec<Act> {
     }
     m.push(Act::ClearKeywords);
     m.push(Act::ResetUnicode);
+    // Clone::clone_from with an initial state as the source (no new states): the destination
+    // shares keys with the source (`ca`, attribute `abc`) with other values in most states
+    m.push(Act::CloneFrom(INIT_FULL));
+    m.push(Act::CloneFrom("en-u-ca-true"));
+    m.push(Act::CloneFrom("und-u-abc-zzz9"));
+    m.push(Act::TakeAndRestore);
     m
 }
 
@@ -1352,6 +1457,10 @@ fn t_menu(thorough: bool) -> Vec<Act> {
         m.push(Act::RemoveTfield(k));
     }
     m.push(Act::ClearTfields);
+    m.push(Act::CloneFrom(INIT_FULL));
+    m.push(Act::CloneFrom("zh-t-und-latn-k1-bar-foo"));
+    m.push(Act::CloneFrom("en-t-h0-true"));
+    m.push(Act::TakeAndRestore);
     m
 }
 
@@ -1368,12 +1477,17 @@ fn x_menu(thorough: bool) -> Vec<Act> {
         m.push(Act::RemoveTag(t));
     }
     m.push(Act::ClearTags);
+    m.push(Act::CloneFrom(INIT_FULL));
+    m.push(Act::CloneFrom("en-x-zz-a"));
+    m.push(Act::TakeAndRestore);
     m
 }
 
+const INIT_FULL: S = "en-Latn-US-1996-valencia-t-de-h0-hybrid-u-abc-ca-buddhist-x-a-zz";
+
 pub fn parsed_inits() -> Vec<(String, St)> {
     [
-        "en-Latn-US-1996-valencia-t-de-h0-hybrid-u-abc-ca-buddhist-x-a-zz",
+        INIT_FULL,
         "und-u-abc-zzz9",
         "zh-t-und-latn-k1-bar-foo",
         "en-x-zz-a",
@@ -1442,6 +1556,15 @@ pub fn harnesses(ctx: &Ctx, which: &[&str]) -> Vec<std::sync::Arc<Harness>> {
             Act::SetId("en-Latn-US-valencia"), Act::SetId("und"),
             Act::SetExtensions(""), Act::SetExtensions("-t-de-h0-hybrid-u-abc-ca-foo-x-a"), Act::SetExtensions("u-nu"),
             Act::ResetUnicode,
+            // clone_from with sources made of component values of this menu: destination and
+            // source share keys with different values in many of the states
+            // (the sources are the initial state and menu values: no new states)
+            Act::CloneFrom("en-Latn-US-valencia-t-de-h0-hybrid-u-abc-ca-foo-x-a"),
+            Act::CloneFrom("und"),
+            Act::CloneExtFrom("-t-de-h0-hybrid-u-abc-ca-foo-x-a"),
+            Act::CloneExtFrom("u-nu"),
+            Act::CloneIdFrom("en-Latn-US-valencia"),
+            Act::TakeAndRestore,
         ];
         #[cfg(feature = "likelysubtags")]
         {
@@ -1632,6 +1755,7 @@ pub fn fill_report(rep: &mut Report, sum: &E3Summary, what: &str) {
 pub fn run_c10(ctx: &Ctx) -> Report {
     let mut rep = Report::new();
     let sum = run_harnesses(ctx, if ctx.quick() { &ALL_LARGE } else { &ALL_XL }, &["c10."], &mut rep, false);
+    super::counts::run_count_histories(ctx, &mut rep, &["c10."]);
     fill_report(&mut rep, &sum, "C10 histories");
     super::args::run_arg_sweep(ctx, &mut rep, true);
     #[cfg(feature = "likelysubtags")]
